@@ -13,6 +13,7 @@ namespace robust {
 extern unsigned char g_fill;
 extern bool g_fill_on;
 extern size_t g_shift;
+extern bool g_desc; void desc_begin(); void desc_end();
 inline void dirtyStack(unsigned char v) {
   volatile unsigned char buf[192 * 1024];
   for (size_t i = 0; i < sizeof buf; i += 1) buf[i] = v;
@@ -63,10 +64,33 @@ struct Edits {
 }  // namespace robust
 
 #ifdef ROBUST_DEFINE_NEW
-namespace robust { unsigned char g_fill = 0; bool g_fill_on = false; size_t g_shift = 0; }
+#include <sys/mman.h>
+namespace robust {
+unsigned char g_fill = 0; bool g_fill_on = false; size_t g_shift = 0;
+// descending arena: while g_desc is set every block is carved from the top of a private region downwards, so that of two blocks allocated one after the
+// other the later one has the LOWER address (malloc gives the opposite order): whatever orders or hashes objects by address comes out the other way round
+bool g_desc = false;
+static char *g_arena = nullptr, *g_arenaTop = nullptr; static const size_t ARENA = (size_t)3 << 30; static long g_arenaLive = 0;
+static const std::size_t ARENA_MARK = ~(std::size_t)0;
+void desc_begin() {
+  if (!g_arena) { void *m = mmap(nullptr, ARENA, PROT_READ | PROT_WRITE, MAP_PRIVATE | MAP_ANONYMOUS | MAP_NORESERVE, -1, 0); if (m == MAP_FAILED) return; g_arena = (char *)m; g_arenaTop = g_arena + ARENA; }
+  if (g_arenaLive == 0) g_arenaTop = g_arena + ARENA;   // nothing from an earlier run is still alive: start from the top again
+  g_desc = true;
+}
+void desc_end() { g_desc = false; }
+}
 // Every block: [raw ... shift bytes ...][16-byte header holding the shift][user data].  Shifting changes every pointer value and the
 // relative order/spacing of blocks; filling makes reads of uninitialised heap memory pattern-dependent.
 void *operator new(std::size_t n) {
+  if (robust::g_desc && robust::g_arena) {
+    std::size_t need = ((n + 15) & ~(std::size_t)15) + 16;
+    if ((std::size_t)(robust::g_arenaTop - robust::g_arena) > need + 4096) {
+      robust::g_arenaTop -= need; char *user = robust::g_arenaTop + 16;
+      *reinterpret_cast<std::size_t *>(user - 16) = robust::ARENA_MARK; robust::g_arenaLive++;
+      if (robust::g_fill_on) std::memset(user, robust::g_fill, n);
+      return user;
+    }
+  }
   std::size_t shift = robust::g_fill_on ? robust::g_shift : 0;
   char *raw = static_cast<char *>(std::malloc(n + shift + 16));
   if (!raw) throw std::bad_alloc();
@@ -76,13 +100,19 @@ void *operator new(std::size_t n) {
   return user;
 }
 void *operator new[](std::size_t n) { return operator new(n); }
+// the nothrow forms (used by std::stable_sort's temporary buffer, among others) must come from the same seam, since their blocks are released with the plain operator delete
+void *operator new(std::size_t n, const std::nothrow_t &) noexcept { try { return operator new(n); } catch (...) { return nullptr; } }
+void *operator new[](std::size_t n, const std::nothrow_t &) noexcept { try { return operator new(n); } catch (...) { return nullptr; } }
 void operator delete(void *p) noexcept {
   if (!p) return;
   char *user = static_cast<char *>(p);
   std::size_t shift = *reinterpret_cast<std::size_t *>(user - 16);
+  if (shift == robust::ARENA_MARK) { robust::g_arenaLive--; return; }   // arena blocks are never reused individually
   std::free(user - 16 - shift);
 }
 void operator delete[](void *p) noexcept { operator delete(p); }
 void operator delete(void *p, std::size_t) noexcept { operator delete(p); }
 void operator delete[](void *p, std::size_t) noexcept { operator delete(p); }
+void operator delete(void *p, const std::nothrow_t &) noexcept { operator delete(p); }
+void operator delete[](void *p, const std::nothrow_t &) noexcept { operator delete(p); }
 #endif
